@@ -29,6 +29,8 @@ func genConfig(r *core.Rand, p *core.Plan, types []int, collide bool) (n1, n2, n
 	p.Cfg["poison"] = int64(r.Intn(256))
 	p.Cfg["segmode"] = int64(r.Intn(4))
 	p.Cfg["jitter"] = int64(r.Pick([]int{0, 1000, 3_000_000, 40_000_000}))
+	p.Cfg["bufreuse"] = int64(r.Intn(2)) // REUSE: argument buffers return to a pool, are scrambled and reused
+	p.Cfg["scramble"] = int64(r.Intn(256))
 	has := map[int]bool{}
 	for _, t := range types {
 		has[t] = true
